@@ -110,6 +110,15 @@ fn check_deck(rep: &mut Rep, seed: u64, n_seeded: u64) {
         }
     }
     rep.add("deck_indexes_from_field_structured_values", structured);
+    // every index whose set bits fit in a 16-bit window
+    let mut windowed = 0u64;
+    drive::for_each_window_value(|v| {
+        if v >= 52 && v <= usize::MAX as u64 {
+            idx.push(v as usize);
+            windowed += 1;
+        }
+    });
+    rep.add("deck_indexes_within_a_16_bit_window", windowed);
     idx.sort_unstable();
     idx.dedup();
     for &i in &idx {
@@ -245,6 +254,19 @@ fn check_slot_table(rep: &mut Rep, name: &str, rows: Vec<Vec<u8>>, n: usize, k: 
         sorted.sort_unstable();
         if !got.insert(sorted) {
             rep.violation("a slot-index table lists every combination exactly once", &format!("{}[{}]", name, ri), inp(), "no repeated row".into(), format!("{:?} repeated", r));
+        }
+    }
+    // "... in increasing order": the rows themselves are listed in increasing (lexicographic) order, which is
+    // how all three published tables are written
+    for (ri, pair) in rows.windows(2).enumerate() {
+        if pair[0] >= pair[1] {
+            rep.violation(
+                "a slot-index table lists its combinations in increasing order",
+                &format!("{}[{}..={}]", name, ri, ri + 1),
+                inp(),
+                "each row lexicographically greater than the one before".into(),
+                format!("{:?} followed by {:?}", pair[0], pair[1]),
+            );
         }
     }
     if got != want || rows.len() != want.len() {
